@@ -706,7 +706,7 @@ def reject_cases(draw):
     mut = draw(
         st.sampled_from(
             [
-                "none", "version-random", "version-bit", "version-near", "version-near", "version-swap-kind", "version-swap-net", "key-prefix", "key-prefix",
+                "none", "version-random", "version-bit", "version-near", "version-near", "version-window", "version-swap-kind", "version-swap-net", "key-prefix", "key-prefix",
                 "key-body-special", "key-body-special", "key-body-random", "depth0-fingerprint", "depth0-index", "depth0-clean",
                 "chaincode", "fingerprint", "depth", "length", "length", "checksum-bit", "string-edit", "byte-flip", "official",
             ]
@@ -731,6 +731,14 @@ def reject_cases(draw):
         # a neighbour of the valid version: the Base58 string keeps its xprv/xpub/tprv/tpub look
         v = (int.from_bytes(p[0:4], "big") + draw(st.sampled_from([-8, -5, -3, -2, -1, 1, 2, 3, 5, 8]))) % 2**32
         p[0:4] = v.to_bytes(4, "big")
+    elif mut == "version-window":
+        # four bytes cut out of the valid version constants laid end to end (every order of the constants): not a version
+        order = draw(st.permutations([ref.VER[("main", "prv")], ref.VER[("test", "prv")], ref.VER[("main", "pub")], ref.VER[("test", "pub")]]))
+        cat = b"".join(order)
+        off = draw(st.sampled_from([1, 2, 3, 5, 6, 7, 9, 10, 11]))
+        p[0:4] = cat[off : off + 4]
+        if draw(st.booleans()):  # with the key kind that the neighbouring constant implies, as well as with its own
+            p[45:78] = (b"\x00" + (k % ec.N or 1).to_bytes(32, "big")) if draw(st.booleans()) else ec.sec1_encode(ec.mul(k % ec.N or 1, ec.G), True)
     elif mut == "version-swap-kind":
         p[0:4] = ref.VER[(x.net, "pub" if x.kind == "prv" else "prv")]
     elif mut == "version-swap-net":
